@@ -276,6 +276,18 @@ func main() {
 		}
 		if j.conform && !ex.Capped && os.Getenv("VERIF_HELPER_E1_FREE") != "" && (sub == "C01" || sub == "C02" || sub == "C03" || sub == "C15") {
 			for _, real := range []bool{false, true} {
+				if real {
+					// an attempt that fails before a process exists is a feature of the scripted executor only
+					skip := false
+					for _, s := range j.cfg.Steps {
+						if s.CreateFail > 0 {
+							skip = true
+						}
+					}
+					if skip {
+						continue
+					}
+				}
 				okc, key, err := conform(j.cfg, perCfgKeys, fl.Work, real)
 				kind := map[bool]string{false: "scripted executor, free-running", true: "real sh processes, free-running"}[real]
 				switch {
